@@ -15,6 +15,12 @@ def _err(rec: Dict[str, Any], err: BaseException, jp_base) -> None:
         rec["msg"] = _stem(str(err.args[0]) if err.args else "")
     except Exception:  # noqa: BLE001
         rec["msg"] = ""
+    try:
+        str(err)
+        repr(err)
+        rec["strok"] = True
+    except Exception:  # noqa: BLE001
+        rec["strok"] = False
 
 
 def _stem(msg: str) -> str:
@@ -151,4 +157,48 @@ def rec_str(jp, q: str, docs_enc, env=None, extra=None):
     except Exception:  # noqa: BLE001
         rec["recompiles"] = False
         rec["s2"] = []
+    return rec
+
+
+class _Timeout(Exception):
+    pass
+
+
+def with_timeout(seconds: float, fn, *args, **kw):
+    """Run fn under a wall-clock guard (SIGALRM); returns (timed_out, result)."""
+    import signal  # noqa: PLC0415
+
+    def handler(signum, frame):  # noqa: ARG001
+        raise _Timeout()
+
+    old = signal.signal(signal.SIGALRM, handler)
+    signal.setitimer(signal.ITIMER_REAL, seconds)
+    try:
+        return False, fn(*args, **kw)
+    except _Timeout:
+        return True, None
+    finally:
+        signal.setitimer(signal.ITIMER_REAL, 0)
+        signal.signal(signal.SIGALRM, old)
+
+
+def rec_total(jp, q: str, doc, env=None):
+    """Outcome class only, for C13: compile then evaluate, under a time limit."""
+    rec: Dict[str, Any] = {"op": "total", "q": core.enc_text(q)}
+
+    def go():
+        c = (env or jp).compile(q)
+        for _ in c.finditer(doc):
+            pass
+        str(c)
+
+    try:
+        timed_out, _ = with_timeout(20.0, go)
+        rec["timeout"] = timed_out
+        rec["out"] = "ok"
+        rec["jp"] = True
+        rec["cls"] = ""
+    except Exception as err:  # noqa: BLE001
+        rec["timeout"] = False
+        _err(rec, err, jp.JSONPathError)
     return rec
